@@ -88,6 +88,8 @@ type Step struct {
 	Replay      bool   // verbatim re-submission of an earlier message
 	Msg         sdk.Msg
 	Note        string
+	// Batch lists the packets of the receive messages bundled into one transaction (kind "batch").
+	Batch []packettypes.Packet
 
 	// sends
 	Src, Dst, Relay string
@@ -418,6 +420,8 @@ func (s *Sim) Apply(op Op) *Violation {
 		return s.opBurst(op)
 	case "nftraid":
 		return s.opNFTRaid(op)
+	case "batch":
+		return s.opBatch(op)
 	case "slashheight":
 		// record, on chain A, a consensus state of chain B at height 47 (0x2f, the byte of '/')
 		on := s.chain(op.A)
@@ -1556,4 +1560,93 @@ func (s *Sim) opBurst(op Op) *Violation {
 		}
 	}
 	return nil
+}
+
+
+// opBatch delivers two receive messages in ONE transaction on the same chain: a genuine receive of a
+// pending packet plus (B%3) 0: the same message again, 1: a genuine receive of another pending packet,
+// 2: a receive with altered data. The transaction is atomic: either both take effect or neither.
+func (s *Sim) opBatch(op Op) *Violation {
+	type cand struct {
+		r  *PacketRec
+		on string
+	}
+	var cands []cand
+	for _, r := range s.Packets {
+		for _, on := range s.W.Order {
+			if s.canRecv(r, on) {
+				cands = append(cands, cand{r, on})
+			}
+		}
+	}
+	if len(cands) == 0 {
+		return nil
+	}
+	c := cands[mod(op.A, len(cands))]
+	on := s.W.Chains[c.on]
+	signer := on.Accounts[world.RelayerIdx]
+	build := func(r *PacketRec, alterData bool) *packettypes.MsgRecvPacket {
+		prover := world.RecvProver(on.Name, r.P)
+		ph, ok := s.proofHeightFor(on.Name, prover, 0)
+		if !ok {
+			return nil
+		}
+		m, err := s.W.RecvMsg(on.Name, prover, r.P, ph, signer.Addr)
+		if err != nil {
+			return nil
+		}
+		if alterData {
+			d := append([]byte{}, r.P.Data...)
+			d[0] ^= 0x01
+			m.Packet.Data = d
+		}
+		return m
+	}
+	var second *PacketRec
+	for _, o := range cands {
+		if o.on == c.on && o.r != c.r {
+			second = o.r
+			break
+		}
+	}
+	note := ""
+	var m2 *packettypes.MsgRecvPacket
+	switch mod(op.B, 3) {
+	case 1:
+		if second != nil {
+			m2 = build(second, false)
+			note = "two-genuine"
+		}
+	case 2:
+		m2 = build(c.r, true)
+		note = "genuine+forged"
+	}
+	// build the first message last so that both proofs are valid at the same client height
+	m1 := build(c.r, false)
+	if m1 == nil {
+		return nil
+	}
+	if m2 == nil {
+		cp := *m1
+		m2 = &cp
+		note = "genuine+duplicate"
+	} else if note == "two-genuine" {
+		m2 = build(second, false)
+	}
+	if m2 == nil {
+		return nil
+	}
+	st := &Step{Op: op, Kind: "batch", Packet: &m1.Packet, Note: note, Batch: []packettypes.Packet{m1.Packet, m2.Packet}}
+	st.Chain = on.Name
+	st.Signer = signer.Addr.String()
+	st.HBefore = on.Height
+	st.Res = on.Deliver(signer, m1, m2)
+	st.HAfter = on.Height
+	st.OK = st.Res.Code == 0
+	st.Time = on.BlockTime(on.Height).UnixNano()
+	if st.OK {
+		s.absorbEvents(on, st.Res.Events)
+	}
+	s.Label("batch:" + note)
+	return s.record(st)
 }
